@@ -31,7 +31,8 @@ ASSUMPTIONS = ["interfaces are in the common domain of the three formats (scalar
                "parameter has a default, no return entry), so C02's normalisations suffice",
                "'code outside the named targets is unchanged' is decided on the AST (sync re-renders the whole file)"]
 T = ("int", "float", "str", "bool", "literal")
-D = ("int", "negint", "float", "bool", "str", "strspace", "zero", "zero")  # incl. the falsy defaults 0, 0.0, False
+D = ("int", "negint", "float", "bool", "str", "strspace", "zero", "zero", "strodd", "strbad")  # incl. falsy defaults (0, 0.0,
+# False) and strings made of delimiter characters (quotes, backslash, '#', '%', braces, ...)
 STATES = ("differs", "differs", "differs", "missing", "empty", "absent", "equal")
 KINDS = ("class", "function", "argparse_function")
 BUDGET_S = {"quick": 400, "thorough": 3000}
